@@ -636,6 +636,27 @@ example : (Sem.run 200 exProgD).status = "ok" ∧ (Sem.run 200 exProgD).out = "a
     untyped constant Go would store an `int`, finding C01 / go-default-typing), a variable as it is -/
 example : (∃ lit, dynDataExpr {} (litI 42) = .call (.int 32 true) (.var "int32" (.func [.int 32 true] (.int 32 true))) [lit]) ∧
     dynDataExpr {} (.var "x" t32) = .var (vn "x") (.int 32 true) := ⟨⟨_, rfl⟩, rfl⟩
+/-! ### Go.Check: constants must be representable (round 11)
+`Go.constOverflow` is the arithmetic core of `Go.Scope.constFits` (the rule applied wherever `Go.check` demands
+assignability to a typed target, and on a constant operand against a typed operand). -/
+/-- the literal texts are written as the back end prints them (`v.to_string()`, here `toString v`; read back by
+    `String.toInt?`, `toString_toInt`).  Representable: the extreme values of uint64 and int8 (a negative literal is one
+    token `-128`, and unary minus on a literal is the same constant) -/
+example : Go.constOverflow 64 false (.int (toString (18446744073709551615 : Int)) (.int 64 false)) = none ∧
+    Go.constOverflow 64 false (.int (toString (9223372036854775808 : Int)) (.int 64 false)) = none ∧
+    Go.constOverflow 8 true (.int (toString (-128 : Int)) (.int 8 true)) = none ∧
+    Go.constOverflow 8 true (.un .neg (.int 8 true) (.int (toString (128 : Int)) (.int 8 true))) = none := by
+  simp [Go.constOverflow, Go.intConst, toString_toInt, Go.intFits]
+/-- not representable: what the seeded change C10-u64-literal-above-i64-max-printed-negative emits (`var max uint64 = -1`,
+    `var x uint64 = -9223372036854775808`), also spelled with unary minus; 128 and -129 at int8 -/
+example : Go.constOverflow 64 false (.int (toString (-1 : Int)) (.int 64 false)) = some (-1) ∧
+    Go.constOverflow 64 false (.int (toString (-9223372036854775808 : Int)) (.int 64 false)) = some (-9223372036854775808) ∧
+    Go.constOverflow 64 false (.un .neg (.int 64 false) (.int (toString (1 : Int)) (.int 64 false))) = some (-1) ∧
+    Go.constOverflow 8 true (.int (toString (128 : Int)) (.int 8 true)) = some 128 ∧
+    Go.constOverflow 8 true (.int (toString (-129 : Int)) (.int 8 true)) = some (-129) := by
+  simp [Go.constOverflow, Go.intConst, toString_toInt, Go.intFits]
+/-- not a constant: a variable — the rule says nothing -/
+example : Go.constOverflow 8 true (.var "x" (.int 64 true)) = none := by simp [Go.constOverflow, Go.intConst]
 end Examples
 
 end Goml.GoCompileProps
